@@ -276,10 +276,8 @@ def _(c):
     from beyond.orbits import StateVector
     from beyond.frames.frames import get_frame, orbit2frame
     from beyond.frames.stations import create_station
-    if c.integer("eop"):
-        config.update({"eop": {"folder": "/repo/tests/data/pole", "type": "all", "missing_policy": "pass"}})
-    else:
-        config.update({"eop": {"folder": "/nonexistent", "type": "all", "missing_policy": "pass"}})
+    from contracts.eopcfg import use_eop
+    use_eop(real=bool(c.integer("eop")))
     date = Date(c.integer("y"), c.integer("m"), c.integer("d")) + timedelta(seconds=c.integer("sec"))
     tag = f"{c.integer('eop')}{c.integer('y')}{c.integer('m')}{c.integer('d')}{c.integer('a')}"
     sta = create_station(f"S{tag}", (43.4, 1.5, 178.0))
@@ -339,7 +337,8 @@ def _(c):
     from beyond.dates import Date
     from beyond.orbits import StateVector
     from beyond.frames import iau1980, iau2010
-    config.update({"eop": {"folder": "/repo/tests/data/pole", "type": "all", "missing_policy": "pass"}})
+    from contracts.eopcfg import use_eop
+    use_eop(real=True)
     date = Date(c.integer("y"), c.integer("m"), c.integer("d"), 3, 4, 5)
     x = [6.9e6 * 0.6, 6.9e6 * 0.5, 6.9e6 * 0.62, 0.0, 0.0, 0.0]
     sv = StateVector(x, date, "cartesian", "ITRF")
@@ -490,3 +489,54 @@ def _(c):
     inplace = view.copy()
     inplace.frame = B
     c.ensure("in_place_equals_copy", bool(np.allclose(np.asarray(inplace, dtype=float), np.asarray(got_obj, dtype=float), rtol=1e-12, atol=1e-9)) and inplace.frame.name == B.name)
+
+
+def _grid_eop_history(tier, rng):
+    """dates with large celestial-pole offsets (1982-1984) and recent ones x the order in which the two configurations (real IERS tables, no tables) are visited"""
+    for y, m in ((1982, 6), (1983, 3), (1984, 1), (1996, 5), (2010, 9)):
+        for order in (0, 1):
+            yield {"y": y, "m": m, "order": order}
+
+
+@contract("C02", "eop.history", funcs=[f"{I10}:_xys", f"{I10}:precesion_nutation", f"{I10}:_earth_orientation", f"{I80}:_nutation", "beyond.dates.eop:EopDb.get"],
+          grid=_grid_eop_history, level="bounded")
+def _(c):
+    """bounded: a conversion depends on the Earth-orientation configuration in force when it is made, not on the one in force the last time the same instant was converted
+    (no value cached across configurations): converting CIRF -> GCRF and ITRF -> TOD under the real tables, then without tables, then under the real tables again gives the
+    first result again (bit for bit), the table-less result the same whichever came first, and for CIRF -> GCRF the two differ by what the tabulated dX, dY (read here
+    independently from the IERS file) predict to first order (the 1980 chain is the uncorrected model: no dpsi, deps there)"""
+    from contracts.eopcfg import use_eop
+    from beyond.dates import Date
+    from beyond.orbits import StateVector
+    x = np.array([7.0e6 * 0.3, -7.0e6 * 0.8, 7.0e6 * 0.52, 5.1e3, 3.3e3, -4.6e3])
+
+    def conv(real, a, b):
+        use_eop(real=real)
+        date = Date(c.integer("y"), c.integer("m"), 15, 12, 0, 0)   # (a Date reads its Earth-orientation parameters when it is created)
+        return np.asarray(StateVector(x, date, "cartesian", a).copy(frame=b), dtype=float)
+    first_real = bool(c.integer("order"))
+    seq = [first_real, not first_real, first_real, not first_real]
+    res10 = [conv(r, "CIRF", "GCRF") for r in seq]
+    res80 = [conv(r, "ITRF", "TOD") for r in seq]
+    c.ensure("same_configuration_same_result.2010", bool(np.array_equal(res10[0], res10[2]) and np.array_equal(res10[1], res10[3])))
+    c.ensure("same_configuration_same_result.1980", bool(np.array_equal(res80[0], res80[2]) and np.array_equal(res80[1], res80[3])))
+    # independent reading of the corrections for that day (mas)
+    mjd = int(Date(c.integer("y"), c.integer("m"), 15, 12, 0, 0).mjd)
+
+    def field(path, a, b):
+        for line in open(path, encoding="ascii"):
+            if int(float(line[7:15])) == mjd:
+                t = line[a - 1:b].strip()
+                return float(t) if t else 0.0
+        return 0.0
+    root = "/repo/tests/data/pole"
+    mas = math.radians(1.0 / 3.6e6)
+    dX, dY = field(f"{root}/finals2000A.all", 98, 106) * mas, field(f"{root}/finals2000A.all", 117, 125) * mas
+    real10, zero10 = (res10[0], res10[1]) if first_real else (res10[1], res10[0])
+    real80, zero80 = (res80[0], res80[1]) if first_real else (res80[1], res80[0])
+    c.ensure("tables_matter.1980", float(np.linalg.norm(real80[:3] - zero80[:3])) > 1.0)   # UT1-UTC and the pole: tens of metres to kilometres at this radius
+    R = float(np.linalg.norm(x[:3]))
+    d10 = float(np.linalg.norm(real10[:3] - zero10[:3]))
+    size10 = R * math.hypot(dX, dY)
+    c.ensure("corrections_are_applied.2010", size10 < 1e-4 or 0.3 * size10 <= d10 <= 1.5 * size10)
+    use_eop(real=True)
